@@ -60,11 +60,52 @@ def main(argv=None):
         if want.isdigit() and os.environ.get("PYTHONHASHSEED") != want:
             os.environ["PYTHONHASHSEED"] = want  # replay under the string-hash seed the violation was found with
             os.execv(sys.executable, [sys.executable, "-m", "simhost.check"] + sys.argv[1:])
+    need_exec = False
     if "PYTHONHASHSEED" not in os.environ and argv is None:
         # a known, seed-derived string-hash seed for this process tree (reference interpreters get other ones)
         base = a.seed if a.seed is not None else int(os.environ.get("VERIF_SEED", DEFAULT_SEED[a.tier]))
         os.environ["PYTHONHASHSEED"] = str(base % 4294967291 + 1)
+        need_exec = True
+    if argv is None and not a.target.startswith("selftest") and "VERIF_SNAPSHOT_DIR" not in os.environ:
+        # one consistent state of the tree under test for the whole batch: the working tree is copied once (without
+        # .git and logs) and every run, worker and reference interpreter imports the copy - an edit of the
+        # repository while the check is running cannot tear a run
+        import shutil
+        import subprocess
+        import tempfile
+
+        origin = os.path.realpath(os.environ.get("VERIF_REPO", "/repo"))
+        base_dir = "/dev/shm" if os.path.isdir("/dev/shm") and os.access("/dev/shm", os.W_OK) else None
+        parent = tempfile.mkdtemp(prefix="simhost-run-", dir=base_dir)
+        snap = os.path.join(parent, "repo")
+        os.makedirs(snap)
+        if not os.environ.get("VERIF_SCRATCH"):
+            # the scratch roots of all runs live next to the copy and go away with it (killed workers leave theirs behind)
+            os.makedirs(os.path.join(parent, "scratch"))
+            os.environ["VERIF_SCRATCH"] = os.path.join(parent, "scratch")
+        try:
+            subprocess.run(["rsync", "-a", "--exclude", ".git", "--exclude", "__pycache__", "--exclude", "*.log*",
+                            origin + "/", snap + "/"], check=True)
+        except (OSError, subprocess.CalledProcessError):
+            shutil.rmtree(snap, ignore_errors=True)
+            os.makedirs(snap)
+            shutil.copytree(origin, snap, ignore=shutil.ignore_patterns(".git", "__pycache__", "*.log*"), dirs_exist_ok=True)
+        os.environ["VERIF_REPO_ORIGIN"] = origin
+        os.environ["VERIF_REPO"] = snap
+        os.environ["VERIF_SNAPSHOT_DIR"] = parent
+        os.environ["VERIF_SNAPSHOT_OWNER"] = str(os.getpid())  # execv keeps the pid
+        need_exec = True
+    if need_exec:
         os.execv(sys.executable, [sys.executable, "-m", "simhost.check"] + sys.argv[1:])
+    if os.environ.get("VERIF_SNAPSHOT_OWNER") == str(os.getpid()):
+        import atexit
+        import shutil
+
+        def _drop_snapshot(owner=os.getpid(), path=os.environ["VERIF_SNAPSHOT_DIR"]):
+            if os.getpid() == owner:  # never from a forked worker
+                shutil.rmtree(path, ignore_errors=True)
+
+        atexit.register(_drop_snapshot)
 
     if a.target.startswith("selftest"):
         from . import selftest
@@ -103,7 +144,7 @@ def main(argv=None):
     os.environ["VERIF_TIER_EFFECTIVE"] = a.tier
     t0 = time.time()
     print(f"check {prop} machine={machine.name} tier={a.tier} VERIF_SEED={seed} budget={budget}s jobs={a.jobs} "
-          f"repo={_host.REPO}")
+          f"repo={os.environ.get('VERIF_REPO_ORIGIN', _host.REPO)}")
     merged = runner.run_batch(machine, prop, a.tier, seed, budget, a.jobs, max_runs=a.max_runs)
     if os.environ.get("VERIF_SURVEY"):
         keys = {}
